@@ -2114,6 +2114,13 @@ Proof.
   apply in_map_iff in Hin as (y & E & Hy). apply filter_In in Hy as [Hy _]. apply in_map_iff. eauto.
 Qed.
 
+Lemma assoc_initial (l : list string) n :
+  assoc n (ps_cache (initial l)) = if existsb (String.eqb n) l then Some None else None.
+Proof.
+  cbn [initial ps_cache]. induction l as [|a l IH]; cbn; [reflexivity|].
+  destruct (String.eqb n a); [reflexivity|apply IH].
+Qed.
+
 (** the client's leaves at quiescence, any number of targets, any schedule *)
 Lemma relay_multi_tf cfg ss sched :
   validate cfg = true -> NoDup (keys (cf_targets cfg)) ->
@@ -2130,10 +2137,7 @@ Proof.
   destruct Hcs as (_ & Hkm & Hc & _). subst cached.
   set (rs0 := {| rn_st := initial (keys (cf_targets cfg));
                  rn_streams := managed_streams (keys managed) ss; rn_subres := None |}).
-  assert (Hinit : forall n, assoc n (ps_cache (initial (keys (cf_targets cfg)))) =
-                            if existsb (String.eqb n) (keys (cf_targets cfg)) then Some None else None).
-  { intros n. cbn [initial ps_cache]. induction (keys (cf_targets cfg)) as [|a l IH]; cbn; [reflexivity|].
-    destruct (String.eqb n a); [reflexivity|apply IH]. }
+  pose proof (assoc_initial (keys (cf_targets cfg))) as Hinit.
   assert (Hex : existsb (String.eqb name) (keys (cf_targets cfg)) = true).
   { apply existsb_exists. exists name. split; [assumption|apply String.eqb_refl]. }
   assert (H0 : minv rs0).
